@@ -256,7 +256,9 @@ impl SourceView {
             let mut char_iter = line.chars().peekable();
 
             while let Some(&c) = char_iter.peek() {
-                if idx >= col as usize {
+                // stop at the character that covers code unit `col`, also when `col`
+                // falls on the second half of a surrogate pair
+                if idx + c.len_utf16() > col as usize {
                     break;
                 }
                 char_iter.next();
